@@ -12,6 +12,9 @@ def run(tier):
     wd = common.workdir("c19")
     vr = viewops.ViewRun(rep, "C19", False, wd)
     todo = [(op, D) for op in viewops.OPS if op.c19 for D in range(op.mind, min(op.maxd, maxd) + 1)]
+    extra, nskip = viewops.variants(todo, wd, "C19")
+    rep.extra["value_category_variants"] = dict(evaluated=len(extra), not_existing=nskip)
+    todo = todo + extra
     vr.compile_shards(todo, nshards=12)
     for op, D in todo:
         vr.check_op(op, D, "O19")
